@@ -18,8 +18,9 @@ nv=$(echo "$out" | grep -c "^VIOLATION")
 echo "$id: check exit=$rc violations(classes)=$nv  $(echo "$out" | grep -E "TOOL-ERROR" | head -1)"
 echo "$out" | grep "^VIOLATION" | head -2 | cut -c1-260
 echo "$out" | grep "^DRIFT" | head -2 | cut -c1-200
-python3 - "$d" "$rc" "$nv" "$tier" "$(echo "$out" | grep -c '^DRIFT')" <<'PY'
-import json,sys
-d,rc,nv,tier,drift=sys.argv[1:]
-json.dump({"check_exit":int(rc),"violation_classes":int(nv),"tier":tier,"detected":int(rc)==1,"mech_drift_lines":int(drift)},open(d+"/result.json","w"))
+python3 - "$d" "$rc" "$nv" "$tier" "$(echo "$out" | grep -c '^DRIFT')" "$(git -C /repo rev-parse --short HEAD)" "$(git -C /verif rev-parse --short HEAD)" <<'PY'
+import json,sys,time
+d,rc,nv,tier,drift,repo,verif=sys.argv[1:]
+json.dump({"check_exit":int(rc),"violation_classes":int(nv),"tier":tier,"detected":int(rc)==1,"mech_drift_lines":int(drift),
+           "repo_head":repo,"verif_head":verif,"run_at":time.strftime("%Y-%m-%dT%H:%M:%SZ",time.gmtime())},open(d+"/result.json","w"))
 PY
